@@ -337,7 +337,7 @@ def real_cases(draw):
     c = dict(kind=kind, seed=draw(st.integers(0, 999)))
     if kind == "elastic":
         dim = draw(st.sampled_from([2, 2, 3]))
-        c["recipe"] = draw(gm.recipes2d(hmin=5, hmax=10) if dim == 2 else gm.recipes3d(nmax=4))
+        c["recipe"] = draw(gm.recipes2d(hmin=5, hmax=10, bend_ok=True) if dim == 2 else gm.recipes3d(nmax=4, bend_ok=True))
         c["law"] = draw(gmod.elastic_specs(dim, classes=("iso", "aniso")))
         c["rho"] = draw(st.integers(1, 12)) / 4.0
         c["rayleigh"] = [draw(st.integers(0, 4)) / 4.0, draw(st.integers(0, 4)) / 8.0]
